@@ -654,7 +654,9 @@ func buildHuffman(w *bitw, out *[]byte, b BlockSpec, fin uint32, f *Fault, res *
 				bumpShorter(litLens, r)
 			}
 		case FOverDist:
-			if !bumpShorter(distLens, r) {
+			if f.Arg%2 == 1 && addLongest(distLens) {
+				// over-subscribed only through one more code of the longest length
+			} else if !bumpShorter(distLens, r) {
 				distLens[0], distLens[1], distLens[2] = 1, 1, 1
 			}
 		case FMissingEOB:
